@@ -12,7 +12,7 @@ import copy, random, uuid
 from .common import Verdict, cps, uncps, outcome_of_exception
 
 ID = "C19"
-GEN = ["Cond"]
+GEN = ["Cond", "Valid"]
 RULE = ("collections of 1..5 rules (detection names from a pool with keyword-prefixed, digit-leading and underscore-prefixed "
         "names; conditions with identifiers, them, patterns that match / match nothing; duplicate ids, titles and file names "
         "in any multiplicity) x random subsets and orders of the built-in validators x two rule orders x exclusion tables; "
